@@ -87,6 +87,12 @@ def make_event(rng, version, shape):
     ev = pdu.pdu(rng, version, etype=etype, extra_top=0.4, extra_content=0.0, **kw)
     ev.pop("hashes", None)
     ev.pop("signatures", None)
+    if rng.random() < 0.25:
+        # state carried in the event: a hash left over from an earlier version of the event (re-signing
+        # after an edit) or copied from another event, possibly next to another algorithm's entry
+        ev["hashes"] = {"sha256": base64.b64encode(bytes(rng.getrandbits(8) for _ in range(32))).decode().rstrip("=")}
+        if rng.random() < 0.3:
+            ev["hashes"]["sha512"] = "c3RhbGU"
     if version <= 2 and rng.random() < 0.5:
         # event ID minted by a different server than the sender's
         ev["event_id"] = "$other:" + rng.choice(pdu.SERVERS)
